@@ -123,18 +123,103 @@ def run(ctx):
         if bad:
             ctx.violation(bad, {'secret': hx(secret), 'ops': [(k, hx(c)) for k, c in seq][:40]},
                           key={'secret': hx(secret), 'n_ops': len(seq)})
+    # ---- a transient failure of the inner socket (EINTR/EAGAIN-style): whatever a wrapper call does
+    # about it, the bytes that reach the wire must stay ONE CFB8 stream of the plaintext of the calls
+    # that returned normally (a call that raises ends the trial: the channel is then broken by design)
+    import errno
+    for trial in range(ctx.scale(40, 300)):
+        secret = bytes(rng.randrange(256) for _ in range(16))
+        cipher = E.create_AES_cipher(secret)
+        inner = Inner()
+        fail_at = rng.randrange(0, 6)
+        kind = rng.choice([errno.EINTR, errno.EAGAIN])
+        calls = {'n': 0}
+        real_send = inner.send
+
+        def flaky(d, real_send=real_send, calls=calls, fail_at=fail_at, kind=kind):
+            calls['n'] += 1
+            if calls['n'] - 1 == fail_at:
+                raise (InterruptedError if kind == errno.EINTR else BlockingIOError)(kind, 'transient')
+            return real_send(d)
+        inner.send = flaky
+        sw = E.EncryptedSocketWrapper(inner, cipher.encryptor(), cipher.decryptor())
+        chunks = [c for c in partition(rng, bytes(rng.randrange(256) for _ in range(rng.choice([20, 100, 400])))) if c]
+        ok_plain = b''
+        raised = None
+        for c in chunks:
+            try:
+                sw.send(c)
+                ok_plain += c
+            except OSError as e:
+                raised = e
+                break
+        wire = b''.join(inner.sent)
+        ctx.case(('flaky-send', trial, fail_at, kind))
+        ctx.count('flaky-send.' + ('raised' if raised else 'returned'))
+        if wire != refcodec.CFB8(secret, encrypt=True).update(ok_plain):
+            ctx.violation('inner send failed once (errno %d) at call %d; the sends that returned normally carried %d bytes '
+                          'but the wire holds %d bytes that are not their CFB8 stream'
+                          % (kind, fail_at, len(ok_plain), len(wire)),
+                          {'secret': hx(secret), 'fail_at': fail_at, 'errno': kind, 'chunks': [hx(c)[:40] for c in chunks][:10]},
+                          key={'kind': 'flaky-send', 'fail_at': fail_at, 'errno': kind})
+        # same for the inbound direction: a failed inner read must not consume or duplicate keystream
+        inner = Inner()
+        plain_in = bytes(rng.randrange(256) for _ in range(120))
+        inner.inbox = refcodec.CFB8(secret, encrypt=True).update(plain_in)
+        real_recv = inner.recv
+        calls2 = {'n': 0}
+
+        def flaky_recv(n, real_recv=real_recv, calls2=calls2, fail_at=fail_at, kind=kind):
+            calls2['n'] += 1
+            if calls2['n'] - 1 == fail_at:
+                raise (InterruptedError if kind == errno.EINTR else BlockingIOError)(kind, 'transient')
+            return real_recv(n)
+        inner.recv = inner.read = flaky_recv
+        cipher = E.create_AES_cipher(secret)
+        dec = cipher.decryptor()
+        sw = E.EncryptedSocketWrapper(inner, cipher.encryptor(), dec)
+        fw = E.EncryptedFileObjectWrapper(inner, dec)
+        got = b''
+        for _ in range(200):
+            if len(got) >= len(plain_in):
+                break
+            try:
+                got += (sw.recv if rng.random() < 0.5 else fw.read)(rng.choice([1, 5, 16, 40]))
+            except OSError:
+                continue            # the caller tries again later, as select-driven code does
+        ctx.case(('flaky-recv', trial, fail_at, kind))
+        if got != plain_in:
+            ctx.violation('inner read failed once (errno %d) at call %d; the stream read afterwards is not the plaintext'
+                          % (kind, fail_at), {'secret': hx(secret), 'fail_at': fail_at}, key={'kind': 'flaky-recv', 'fail_at': fail_at})
     # ---- the REAL installation point: LoginReactor.react on an encryption request, then the inbound
     # stream consumed through BOTH installed wrappers (socket.recv and file_object.read) in a mixed partition
     import simnet
     from refserver import RefServer
     import minecraft.networking.connection as C
     for trial in range(ctx.scale(6, 40)):
-        cfg = {'version': 757, 'script': [('encrypt', 'srv', b'tok%d' % trial)], 'rsa': rng.choice(['1024', '2048'])}
+        cont = trial % 2 == 1      # the server goes on (encrypted) right after the response, in the same batch
+        cfg = {'version': 757, 'script': [('encrypt', 'srv', b'tok%d' % trial)] +
+               ([('compress', 64)] * (trial % 4 == 3) + [('success',), ('keepalive', 77 + trial)] if cont else []),
+               'rsa': rng.choice(['1024', '2048'])}
+        if cont and trial % 3 == 0:
+            import random
+            cfg['stream_rng'] = random.Random(rng.getrandbits(32))
         with simnet.Net(lambda s_: RefServer(s_, cfg)) as net:
-            conn = C.Connection('h', 1, username='u', allowed_versions={757}, handle_exception=lambda e, i: None)
+            excs18 = []
+            conn = C.Connection('h', 1, username='u', allowed_versions={757}, handle_exception=lambda e, i: excs18.append(e))
             conn.connect()
             net.run_threads()                      # login start -> encryption request -> response; then idle
             srv = cfg['servers'][0]
+            if cont:
+                ctx.case(('install-continue', trial))
+                ka = [f for f in srv.frames if f[0] == 'play']
+                if excs18 or type(conn.reactor).__name__ != 'PlayingReactor' or not ka or \
+                        ka[0][2] != (77 + trial).to_bytes(8, 'big') or not ka[0][3]:
+                    ctx.violation('the server continues encrypted right after the encryption response (success, keep-alive %d): '
+                                  'client state %s, exceptions %r, play frames seen by the server %r'
+                                  % (77 + trial, type(conn.reactor).__name__, excs18[:1], [(f[1], f[2].hex(), f[3]) for f in ka][:2]),
+                                  {'trial': trial}, key={'kind': 'install-continue'})
+                    continue
             ctx.case(('install', trial), sample={'installation': 'LoginReactor', 'key': cfg['rsa']})
             if srv.secret is None or type(conn.socket).__name__ != 'EncryptedSocketWrapper':
                 ctx.violation('encryption was not installed after the encryption request',
@@ -166,7 +251,7 @@ def run(ctx):
                               'and file_object.read does not decrypt as one CFB8 stream',
                               {'first_bad_offset': next((i for i, (a, b) in enumerate(zip(got, plain_in)) if a != b), len(got))},
                               key={'kind': 'install-recv'})
-            if refcodec.CFB8(srv.secret, encrypt=False).update(wire_out) != plain_out:
+            if srv.dec.update(wire_out) != plain_out:      # the server's decryptor: the stream continues
                 ctx.violation('after the real installation point, sent bytes are not CFB8(secret) of the plaintext',
                               {}, key={'kind': 'install-send'})
     # ---- AES block function itself: Lean vs cryptography vs refcodec
